@@ -121,6 +121,29 @@ func VerifFailCleanly() {
 			var r printRunner
 			out, err = zzRunText(text, func(cmd *cobra.Command, args []string) error { return r.execute(cmd, args) })
 		}
+	case 6: // flag combinations: -m with level 0 / suffix together with --account, --commodity, --remap filters
+		lvl := []string{"0,Assets", "0", "1:1,Expenses", "2,^Assets"}[v.Choice("map", 4)]
+		acc := []string{"", "Assets", "^Expenses:X$", "nomatch"}[v.Choice("account", 4)]
+		com := []string{"", "CHF", "nomatch"}[v.Choice("commodity", 3)]
+		remap := v.Choice("remap", 2) == 1
+		text := zzFCOpens + "2020-01-05 \"t\"\nEquity:Equity Assets:A 1 CHF\n\n2020-02-05 \"t\"\nAssets:A Expenses:X 1 CHF\n"
+		run = func() {
+			var r balanceRunner
+			r.Multiperiod.ZZSet("", "2999-12-31", 0, 0, false)
+			r.mapping.Set(lvl)
+			if acc != "" {
+				r.accounts.Set(acc)
+			}
+			if com != "" {
+				r.commodities.Set(com)
+			}
+			if remap {
+				r.remap.Set("Expenses")
+			}
+			r.sortAlphabetically = true
+			r.csv = true
+			out, err = zzRunText(text, func(cmd *cobra.Command, args []string) error { return r.execute(cmd, args) })
+		}
 	case 5: // a declared price with symbolic digits down to 1e-10 (zero, tiny, ordinary), valued report
 		text := zzFCOpens + "2020-01-05 price USD " + v.Digits("pi", 1) + "." + v.Digits("pf", 10) + " CHF\n\n2020-01-06 \"t\"\nEquity:Equity Assets:A 2 USD\n"
 		run = func() {
